@@ -801,6 +801,9 @@ class Curve(BaseCurve):
         assert tolerance >= 0
         if nodes is None:
             nodes = self.knotvector.knots
+        nodes = tuple(nodes)
+        for node in nodes:
+            float(node)  # Verify if it's a number, before any removal
         nodes = tuple(set(nodes) - set(self.knotvector.limits))
         for knot in nodes:
             try:
